@@ -19,7 +19,7 @@ STATIC_OPS = ("union", "inter", "exactly", "strict", "hasmethod")
 
 
 def static_specs(depth, wide=False):
-    base = ["K0", "K1", "K2", "K3", "K4", "A", "P", "int", "str", "O"]
+    base = ["K0", "K1", "K2", "K3", "K4", "A", "P", "P2", "int", "str", "O"]
     small = ["K0", "K1", "K3", "K4", "int", "P"]
     l1 = []
     for b in base:
@@ -48,9 +48,12 @@ def static_specs(depth, wide=False):
     return out
 
 
+ABSTRACT = ["A", "P", "P2"]
+
+
 def denotes(cname, spec):
     """C in [[T]]: the documented meaning, computed on the closed world of classes."""
-    C = U.WORLD_CLASSES[cname]
+    C = U.WORLD_CLASSES.get(cname) or U.CLASSES[cname]
     if isinstance(spec, str):
         return issubclass(C, U.CLASSES[spec] if spec in U.CLASSES else U.WORLD_CLASSES[spec])
     op, *rest = spec
@@ -89,9 +92,11 @@ def shard(shard, nshards, tier, seed):
         if i % nshards != shard:
             continue
         T = annot._ntype(s, classes)
-        # (a) subclasscheck against the denotation, for every class of the closed world
-        for cname in U.WORLD:
-            C = U.WORLD_CLASSES[cname]
+        # (a) subclasscheck against the denotation, for every class of the closed world and for the abstract
+        # classes themselves (the ABC, the protocol and its structural twin: distinct classes that are
+        # subclasses of each other)
+        for cname in U.WORLD + ABSTRACT:
+            C = U.WORLD_CLASSES.get(cname) or U.CLASSES[cname]
             exp = denotes(cname, s)
             try:
                 got = subclasscheck(C, T)
@@ -352,7 +357,7 @@ def replay(case):
             out = gen.Program(classes, mspecs, annotate=lambda t, c: annot._ntype(t, c)).call((instance_of(cname),), {})
             return [] if out[0] == "ret" and out[1] == ((0,) if exp else (1,)) else [("dispatch-vs-meaning", out[:2])]
         try:
-            got = subclasscheck(U.WORLD_CLASSES[cname], T)
+            got = subclasscheck(U.WORLD_CLASSES.get(cname) or U.CLASSES[cname], T)
         except Exception as e:  # noqa
             got = repr(e)
         return [] if got is exp else [("subclasscheck-vs-meaning", got)]
